@@ -39,6 +39,9 @@ type HConfig struct {
 	PkceEnforcePublic bool     `json:"pkce_enforce_public"`
 	PkcePlain         bool     `json:"pkce_plain"`
 	IntrospectRT      bool     `json:"introspect_rt"`
+	LifeDev           int64    `json:"life_dev_ms"`
+	ParLife           int64    `json:"par_life_ms"`
+	ParEnforced       bool     `json:"par_enforced"`
 }
 
 type HClient struct {
@@ -75,6 +78,12 @@ type HOp struct {
 	CredsOK bool `json:"creds_ok,omitempty"`
 	// introspection endpoint: caller = client (Auth) or bearer token
 	Bearer *HTok `json:"bearer,omitempty"`
+	// PAR: client_id in the body (-1 = absent), request_uri smuggled into the push, foreign-prefix request_uri
+	BodyClient    int  `json:"body_client,omitempty"`
+	HasRequestURI bool `json:"has_request_uri,omitempty"`
+	ForeignURI    bool `json:"foreign_uri,omitempty"`
+	// device decision
+	Accept bool `json:"accept,omitempty"`
 	// advance
 	Ms int64 `json:"ms,omitempty"`
 	// setclient
@@ -192,6 +201,10 @@ func newWorld(t *testing.T, h *HHistory) *world {
 		EnforcePKCEForPublicClients:    h.Cfg.PkceEnforcePublic,
 		EnablePKCEPlainChallengeMethod: h.Cfg.PkcePlain,
 		DisableRefreshTokenValidation:  !h.Cfg.IntrospectRT,
+		DeviceAndUserCodeLifespan:      ms(h.Cfg.LifeDev),
+		DeviceVerificationURL:          "https://as.example/device",
+		PushedAuthorizeContextLifespan: ms(h.Cfg.ParLife),
+		IsPushedAuthorizeEnforced:      h.Cfg.ParEnforced,
 		TokenURL:                       "https://as.example/token",
 		SendDebugMessagesToClients:     true,
 	}
@@ -273,7 +286,9 @@ func (w *world) authForm(req *http.Request, form url.Values, auth int) {
 		return
 	}
 	if auth < len(w.clients) && w.clients[auth].Public {
-		form.Set("client_id", clientID(auth))
+		if form.Get("client_id") == "" || form.Get("grant_type") != "" {
+			form.Set("client_id", clientID(auth))
+		}
 		return
 	}
 	req.SetBasicAuth(url.QueryEscape(clientID(auth)), url.QueryEscape(clientSecret(auth)))
@@ -298,11 +313,31 @@ func (w *world) exec(op *HOp) HObs {
 	ctx := context.Background()
 	o := HObs{Minted: []string{}, Scopes: []string{}}
 	switch op.Kind {
-	case "authorize":
+	case "authorize", "authorize_par", "push":
 		q := url.Values{}
-		q.Set("client_id", clientID(op.Client))
 		q.Set("response_type", "code")
 		q.Set("state", "state-0123456789")
+		switch op.Kind {
+		case "authorize":
+			q.Set("client_id", clientID(op.Client))
+			if op.ForeignURI {
+				q.Set("request_uri", "urn:foreign:prefix:abcdef")
+			}
+		case "authorize_par":
+			q.Set("client_id", clientID(op.Client))
+			if op.Tok.Ref >= 0 && op.Tok.Ref < len(w.issued) {
+				q.Set("request_uri", w.issued[op.Tok.Ref].tok)
+			} else {
+				q.Set("request_uri", "urn:ietf:params:oauth:request_uri:AAAAAAAAAAAAAAAAAAAAAAAAAAAAAAAAAAAAAAAAAAA")
+			}
+		case "push":
+			if op.BodyClient >= 0 {
+				q.Set("client_id", clientID(op.BodyClient))
+			}
+			if op.HasRequestURI {
+				q.Set("request_uri", "urn:ietf:params:oauth:request_uri:smuggled")
+			}
+		}
 		if op.Redirect != "" {
 			q.Set("redirect_uri", op.Redirect)
 		}
@@ -317,6 +352,25 @@ func (w *world) exec(op *HOp) HObs {
 		}
 		if op.Method != "" {
 			q.Set("code_challenge_method", op.Method)
+		}
+		if op.Kind == "push" {
+			bc := q.Get("client_id")
+			req := w.postReq("/par", q, op.Auth)
+			_ = bc
+			par, err := w.prov.NewPushedAuthorizeRequest(ctx, req)
+			if err != nil {
+				o.Err = errName(err)
+				return o
+			}
+			presp, err := w.prov.NewPushedAuthorizeResponse(ctx, par, &fosite.DefaultSession{})
+			if err != nil {
+				o.Err = errName(err)
+				return o
+			}
+			w.issued = append(w.issued, issuedTok{"par", presp.GetRequestURI()})
+			o.Minted = append(o.Minted, "par")
+			o.ExpiresIn = int64(presp.GetExpiresIn())
+			return o
 		}
 		req := httptest.NewRequest("GET", "/auth?"+q.Encode(), nil)
 		ar, err := w.prov.NewAuthorizeRequest(ctx, req)
@@ -462,6 +516,85 @@ func (w *world) exec(op *HOp) HObs {
 		}
 		_, err := w.prov.NewIntrospectionRequest(ctx, req, &fosite.DefaultSession{})
 		o.Err = errName(err)
+	case "device_auth":
+		form := url.Values{}
+		form.Set("client_id", clientID(op.BodyClient))
+		if len(op.Scopes) > 0 {
+			form.Set("scope", strings.Join(op.Scopes, " "))
+		}
+		if len(op.Aud) > 0 {
+			form.Set("audience", strings.Join(op.Aud, " "))
+		}
+		keep := form.Get("client_id")
+		req := w.postReq("/device", form, op.Auth)
+		_ = keep
+		dr, err := w.prov.NewDeviceRequest(ctx, req)
+		if err != nil {
+			o.Err = errName(err)
+			return o
+		}
+		resp, err := w.prov.NewDeviceResponse(ctx, dr, &fosite.DefaultSession{})
+		if err != nil {
+			o.Err = errName(err)
+			return o
+		}
+		w.issued = append(w.issued, issuedTok{"device", resp.GetDeviceCode()}, issuedTok{"user", resp.GetUserCode()})
+		o.Minted = append(o.Minted, "device", "user")
+		o.ExpiresIn = resp.GetExpiresIn()
+	case "decide":
+		if op.Tok.Ref < 0 || op.Tok.Ref+1 >= len(w.issued) || w.issued[op.Tok.Ref].kind != "device" {
+			o.Err = "not_found"
+			return o
+		}
+		strat := compose.NewDeviceStrategy(w.conf)
+		sig, _ := strat.DeviceCodeSignature(ctx, w.issued[op.Tok.Ref].tok)
+		d, ok := w.store.DeviceAuths[sig]
+		if !ok {
+			o.Err = "not_found"
+			return o
+		}
+		if err := strat.ValidateUserCode(ctx, d, w.issued[op.Tok.Ref+1].tok); err != nil {
+			o.Err = errName(err)
+			return o
+		}
+		dr := d.(*fosite.DeviceRequest)
+		if op.Accept {
+			dr.SetUserCodeState(fosite.UserCodeAccepted)
+		} else {
+			dr.SetUserCodeState(fosite.UserCodeRejected)
+		}
+		dr.GrantedScope = append(fosite.Arguments{}, op.Granted...)
+		dr.GrantedAudience = append(fosite.Arguments{}, op.GAud...)
+		dr.GetSession().(*fosite.DefaultSession).Subject = op.Subject
+	case "device_poll":
+		form := url.Values{}
+		form.Set("grant_type", "urn:ietf:params:oauth:grant-type:device_code")
+		form.Set("device_code", w.token(op.Tok, "dc"))
+		req := w.postReq("/token", form, op.Auth)
+		ar, err := w.prov.NewAccessRequest(ctx, req, &fosite.DefaultSession{})
+		if err != nil {
+			o.Err = errName(err)
+			return o
+		}
+		resp, err := w.prov.NewAccessResponse(ctx, ar)
+		if err != nil {
+			o.Err = errName(err)
+			return o
+		}
+		if at := resp.GetAccessToken(); at != "" {
+			w.issued = append(w.issued, issuedTok{"access", at})
+			o.Minted = append(o.Minted, "access")
+		}
+		if rt, ok := resp.GetExtra("refresh_token").(string); ok && rt != "" {
+			w.issued = append(w.issued, issuedTok{"refresh", rt})
+			o.Minted = append(o.Minted, "refresh")
+		}
+		if ei, ok := resp.GetExtra("expires_in").(int64); ok {
+			o.ExpiresIn = ei
+		}
+		if sc, ok := resp.GetExtra("scope").(string); ok && sc != "" {
+			o.Scopes = strings.Split(sc, " ")
+		}
 	case "revoke":
 		form := url.Values{}
 		kind := "at"
@@ -575,8 +708,9 @@ func coqAurls(l []string) string {
 
 func coqCfg(c *HConfig) string {
 	strat := map[string]string{"exact": "SExact", "hierarchic": "SHierarchic", "wildcard": "SWildcard"}[c.Scope]
-	return fmt.Sprintf("(Build_config %s %s %s %s %s %s %s %s %s %s)", strat, B(c.AudExact), QL(c.RefreshScopes),
-		Z(c.LifeCode), Z(c.LifeAT), Z(c.LifeRT), B(c.PkceEnforce), B(c.PkceEnforcePublic), B(c.PkcePlain), B(c.IntrospectRT))
+	return fmt.Sprintf("(Build_config %s %s %s %s %s %s %s %s %s %s %s %s %s)", strat, B(c.AudExact), QL(c.RefreshScopes),
+		Z(c.LifeCode), Z(c.LifeAT), Z(c.LifeRT), B(c.PkceEnforce), B(c.PkceEnforcePublic), B(c.PkcePlain), B(c.IntrospectRT),
+		Z(c.LifeDev), Z(c.ParLife), B(c.ParEnforced))
 }
 
 func coqClient(c *HClient) string {
@@ -621,6 +755,22 @@ func coqOp(op *HOp) string {
 		return fmt.Sprintf("ORevoke %s %s %s", coqAuth(op.Auth), coqTok(op.Tok), coqHint(op.Hint))
 	case "introspect":
 		return fmt.Sprintf("OIntrospect %s %s %s", coqTok(op.Tok), coqHint(op.Hint), QL(op.Scopes))
+	case "push":
+		bc := "None"
+		if op.BodyClient >= 0 {
+			bc = fmt.Sprintf("(Some %d)", op.BodyClient)
+		}
+		return fmt.Sprintf("OPush %s %s %s (Build_authz 0 %s %s [] %s [] \"\" %s %s)", coqAuth(op.Auth), bc, B(op.HasRequestURI), Q(op.Redirect), QL(op.Scopes),
+			coqAurls(op.Aud), Q(op.Challenge), Q(op.Method))
+	case "authorize_par":
+		return fmt.Sprintf("OAuthorizePAR %d %s (Build_authz %d %s %s %s %s %s %s %s %s)", op.Client, coqTok(op.Tok), op.Client, Q(op.Redirect), QL(op.Scopes), QL(op.Granted),
+			coqAurls(op.Aud), coqAurls(op.GAud), Q(op.Subject), Q(op.Challenge), Q(op.Method))
+	case "device_auth":
+		return fmt.Sprintf("ODeviceAuth %s %d %s %s", coqAuth(op.Auth), op.BodyClient, QL(op.Scopes), coqAurls(op.Aud))
+	case "decide":
+		return fmt.Sprintf("ODecide %s %s %s %s %s", coqTok(op.Tok), B(op.Accept), QL(op.Granted), coqAurls(op.GAud), Q(op.Subject))
+	case "device_poll":
+		return fmt.Sprintf("ODevicePoll %s %s", coqAuth(op.Auth), coqTok(op.Tok))
 	case "password":
 		return fmt.Sprintf("OPassword %s %s %s %s %s %s", coqAuth(op.Auth), B(op.CredsOK), QL(op.Scopes), coqAurls(op.Aud), QL(op.Granted), coqAurls(op.GAud))
 	case "clientcreds":
@@ -645,6 +795,12 @@ func coqKind(k string) string {
 		return "KCode"
 	case "access", "access_token":
 		return "KAccess"
+	case "device":
+		return "KDevice"
+	case "user":
+		return "KUser"
+	case "par":
+		return "KPar"
 	}
 	return "KRefresh"
 }
